@@ -4,7 +4,7 @@ from __future__ import annotations
 import ast
 
 from sa.model import AnalysisError, calls_in, kwarg, FuncInfo
-from sa.paths import function_paths, end_kind, consistent
+from sa.paths import function_paths, end_kind, consistent, must_raise
 from sa.util import U, Env, call_is, const_value, writes_of
 
 EXPLANATION = (
@@ -262,10 +262,14 @@ def run(ctx):
     pf = init.functions.get("plot")
     ctx.saw(pf)
     okp = any(end_kind(p) == "raise" and ("kind in backend_impl.types", False) in [(U(s[1]), s[2]) for s in p if s[0] == "cond"] for p in function_paths(pf.node))
+    n_mr, off_mr = must_raise(pf.node, lambda e: U(e) == "kind in backend_impl.types", when=False)
+    okp = okp and n_mr >= 1 and not off_mr
     ctx.check(okp, "C20.c", "plot:unknown-kind", "kind not in backend.types -> RuntimeError", "an unknown plot kind is no longer refused", pf.where)
     gb = init.functions.get("_get_backend")
     ctx.saw(gb)
     okb = any(end_kind(p) == "raise" and ("backend", False) in [(U(s[1]), s[2]) for s in p if s[0] == "cond"] for p in function_paths(gb.node))
+    n_mr, off_mr = must_raise(gb.node, lambda e: U(e) == "backend", when=False)
+    okb = okb and n_mr >= 1 and not off_mr
     ctx.check(okb, "C20.c", "_get_backend:unknown", "unknown backend -> RuntimeError", "an unknown backend is no longer refused", gb.where)
 
     # dispatch: the method looked up is the one named `kind`, called with the caller's histogram and keyword arguments
